@@ -145,7 +145,11 @@ def process(tier, rng, cicada):
     kcases = []
     # lines that are harmless the first time must be harmless the second time: the same line twice, `!!` while the previous line itself holds `!!`
     fixed = [["argv !!\r", "argv !!\r", "argv !!\r"], ["!!\r", "!!\r"], ["argv '!!'\r", "argv !!\r", "argv \"!!\" !!\r"],
-             ["argv a\r", "!!\r", "!! !!\r", "!!\r"], ["'\r", "\x03", "'\r", "\x03", "argv a\r", "argv a\r"]]
+             ["argv a\r", "!!\r", "!! !!\r", "!!\r"], ["'\r", "\x03", "'\r", "\x03", "argv a\r", "argv a\r"],
+             # completion probes that must not depend on the random draw: a word that starts with a multi-byte character and ends in
+             # something a completer claims (seed C05-5 was once caught by a single random probe and lost when the stream changed)
+             ["é$", "\t", " ", "日本$HO", "\t", "\t", " ", "ü=$A", "\t"], ["😀$_", "\t", " ", "é~/", "\t", " ", "日本./", "\t", "\t"],
+             ["argv é$", "\t", " ", "'é di", "\t", " ", "é\\ f", "\t"]]
     for i in range(m + len(fixed)):
         if i >= m:
             pieces = fixed[i - m]
